@@ -28,7 +28,7 @@ MANIFEST = {
     'technique': 'Lean 4 proof (both collectors equal the same declarative inventory; dict-assignment fold lemmas) + three-link differential correspondence',
 }
 RULE = ('generated importable modules (as C07: functions, async functions, classes, static/class methods, properties with setters, decorated '
-        'callables with functools.wraps and decorator factories, definitions inside if/else/try/with/for/while, imported functions and classes '
+        'callables with functools.wraps and decorator factories - local ones and ones imported from another module, whose wrappers keep __module__ but have foreign __globals__ -, definitions inside if/else/try/with/for/while, imported functions and classes '
         'that carry doctests of their own, redefinitions, nested definitions, main guard), imported with '
         'util_import.import_module_from_path under unique names: link 1 static model vs static code, link 2 dynamic model vs dynamic code '
         'on the vars() dump, link 3 execModule vs the dump, and static vs dynamic code end to end x 3 styles; non-trivial = module with a '
